@@ -269,6 +269,10 @@ def gen_cases(ctx, root):
             if quick and (en, vo) != (1, 0) and rng.random() < 0.5:
                 continue
             add("tight-seq", dict(permit=0, cb="none", home="sb"), [("tight", en, vo, rng.choice(["/dir1", "/dir1"]), sq)])
+    # ... followed by the end of the connection: does a descriptor of the extension outlive it?
+    for sq in seqs:
+        if any(k in ("upload", "download") for k, _ in sq):
+            add("tight-seq", dict(permit=0, cb="none", home="sb"), [("tight", 1, 0, "/dir1", sq), ("gone",)])
     for _ in range(20 * mult):
         sq = []
         for _ in range(rng.randint(1, 5)):
@@ -424,7 +428,7 @@ def split_alt(block):
     """model block -> (trace of the unchanged-tree variant, [traces of the variants with proposed fixes])"""
     tree = [l for l in block if not re.match(r"alt\d ", l)]
     alts = []
-    for k in "123":
+    for k in "12345":
         a = [l[5:] for l in block if l.startswith("alt%s " % k)]
         if a:
             alts.append([block[0]] + a)
@@ -596,7 +600,7 @@ def oracle_case(env, case, iblocks):
                     dirs += sum(1 for x, y in zip(b, b[1:]) if x.startswith("fs opendir ") and y == "= ok") - sum(1 for x in b if x == "fs closedir")
                 fails.append((j, "a transfer outlives its connection: %s descriptor(s) opened by file transfer still open after "
                                  "rfbClientConnectionGone%s" % (lk[0].split()[1], " (directory stream of rfbSendDirContent never closed)" if dirs > 0 else ""),
-                              dict(feat, kind="fd-leak", dirstream=int(dirs > 0))))
+                              dict(feat, kind="fd-leak", dirstream=int(dirs > 0), tight=int(any(o[0] == "tight" for o in case["ops"][:j])))))
             alive = False
             continue
         if body and body[0] == "dead":
